@@ -54,9 +54,6 @@ int main(int argc, char** argv) {
         { "resvbuf", 0, [](Scn& s, tbb::task_arena& A) { run_resv<2>(s, A, false); } },
         { "ringbuf", 0, [](Scn& s, tbb::task_arena& A) { run_ring_conc(s, A); } },
     };
-#if VRT_ASAN
-    for (auto& d : defs) if (std::string(d.name) == "join-key" && !a.has("asan-join-key")) d.weight = 0;   // UBSan: null member call in hash_buffer::find_ref_with_key (harmless, reported)
-#endif
     std::vector<int> wheel;
     for (size_t i = 0; i < defs.size(); i++) { if (mode == "default" || mode == "all") for (int k = 0; k < defs[i].weight; k++) wheel.push_back((int)i); else if (mode == defs[i].name) wheel.push_back((int)i); }
     if (wheel.empty()) { fprintf(stderr, "c15: unknown --mode %s\n", mode.c_str()); return 2; }
